@@ -216,6 +216,9 @@ struct ExecState {
     last_failed_cas: Vec<Option<(usize, u64, u64)>>,
     /// consecutive stutter steps taken because nothing else could run
     forced_stutter: usize,
+    /// per thread: the last operation if it was a read-modify-write that left the cell as it found it
+    /// (kind, cell, operand, value found)
+    last_idle_rmw: Vec<Option<(OpKind, usize, u64, u64)>>,
     /// a thread spinning on alone after a give-up deviation: (thread, loop key, steps taken so far)
     alone: Option<(usize, String, usize)>,
     /// steps taken by threads spinning on alone (not counted against the step horizon)
@@ -272,6 +275,7 @@ impl Exec {
                 locks: HashMap::new(),
                 last_failed_cas: vec![None; n],
                 forced_stutter: 0,
+                last_idle_rmw: vec![None; n],
                 alone: None,
                 alone_total: 0,
                 load_log: vec![vec![]; n],
@@ -309,6 +313,12 @@ impl Exec {
                 }
                 true
             }
+            // `while cell.swap(0) == 0 {}`: the same read-modify-write again, after it found and left the cell at one value:
+            // a stutter step until the cell holds something else
+            PKind::Sync(k @ (OpKind::Swap | OpKind::FetchAdd | OpKind::FetchSub | OpKind::FetchAnd | OpKind::FetchOr | OpKind::FetchXor | OpKind::FetchMax | OpKind::FetchMin)) => match st.last_idle_rmw[t] {
+                Some((k0, a, operand, found)) if k0 == k && a == p.addr && operand == p.operand => (p.peek)(p.addr) != found,
+                _ => true,
+            },
             PKind::Sync(OpKind::CmpXchg { .. }) => match st.last_failed_cas[t] {
                 // The same compare-exchange again, right after it really failed, while the cell still holds the value
                 // that made it fail: it would fail identically (a stutter step), so the thread waits for the cell to
@@ -358,7 +368,7 @@ impl Exec {
                 pend[t] = Some(*p);
                 if Self::enabled(st, t, p) {
                     enabled.push(t);
-                } else if matches!(p.kind, PKind::Sync(OpKind::CmpXchg { .. } | OpKind::Load)) {
+                } else if !p.is_lock_op() && matches!(p.kind, PKind::Sync(_)) {
                     stutter.push((t, format!("{:?}@{}", p.kind, st.in_call[t].clone().unwrap_or_default())));
                     // waiting oracle: remember what the others were doing while t spins
                     let obs = (t, st.in_call[t].clone().unwrap_or_default(), st.in_call.clone());
@@ -392,7 +402,7 @@ impl Exec {
             // Nothing can run but a thread waits under the stutter rule: the rule assumes an unbounded retry loop, which
             // a bounded one (try three times, then give up) is not. Let the lowest such thread take its failing step,
             // without branching; a loop that really never ends reaches the step horizon instead.
-            if let Some(t) = (0..n).find(|&t| matches!(pend[t], Some(p) if matches!(p.kind, PKind::Sync(OpKind::CmpXchg { .. } | OpKind::Load)))) {
+            if let Some(t) = (0..n).find(|&t| matches!(pend[t], Some(p) if !p.is_lock_op() && matches!(p.kind, PKind::Sync(_)))) {
                 st.forced_stutter += 1;
                 if st.forced_stutter <= GIVE_UP_LIMIT {
                     enabled.push(t);
@@ -575,6 +585,12 @@ impl SyncHook for ThreadHook {
             }
         }
         st.last_failed_cas[me] = None;
+        st.last_idle_rmw[me] = match (op.kind, out) {
+            (OpKind::Swap | OpKind::FetchAdd | OpKind::FetchSub | OpKind::FetchAnd | OpKind::FetchOr | OpKind::FetchXor | OpKind::FetchMax | OpKind::FetchMin, Outcome::Prev(v)) if (op.peek)(op.addr) == *v => {
+                Some((op.kind, op.addr, op.operand, *v))
+            }
+            _ => None,
+        };
         match (op.kind, out) {
             (OpKind::Load, Outcome::Prev(v)) => {
                 let log = &mut st.load_log[me];
@@ -1221,36 +1237,36 @@ pub trait SeqSpec {
 /// Is `calls` linearizable w.r.t. `spec`? Returns a witness order if so.
 pub fn linearizable<S: SeqSpec>(spec: &S, calls: &[Call]) -> Option<Vec<usize>> {
     let n = calls.len();
-    assert!(n <= 30);
-    let mut seen: std::collections::HashSet<(u32, S::State)> = Default::default();
+    assert!(n <= 62);
+    let mut seen: std::collections::HashSet<(u64, S::State)> = Default::default();
     let mut order = vec![];
     fn rec<S: SeqSpec>(
         spec: &S,
         calls: &[Call],
-        done: u32,
+        done: u64,
         st: S::State,
-        seen: &mut std::collections::HashSet<(u32, S::State)>,
+        seen: &mut std::collections::HashSet<(u64, S::State)>,
         order: &mut Vec<usize>,
     ) -> bool {
         let n = calls.len();
-        if done == (1u32 << n) - 1 {
+        if done == (1u64 << n) - 1 {
             return true;
         }
         if !seen.insert((done, st.clone())) {
             return false;
         }
         for i in 0..n {
-            if done & (1 << i) != 0 {
+            if done & (1u64 << i) != 0 {
                 continue;
             }
             // minimal: no other pending call returned before i was invoked
-            let minimal = (0..n).all(|j| j == i || done & (1 << j) != 0 || !calls[j].precedes(&calls[i]));
+            let minimal = (0..n).all(|j| j == i || done & (1u64 << j) != 0 || !calls[j].precedes(&calls[i]));
             if !minimal {
                 continue;
             }
             if let Some(ns) = spec.apply(&st, &calls[i]) {
                 order.push(i);
-                if rec(spec, calls, done | (1 << i), ns, seen, order) {
+                if rec(spec, calls, done | (1u64 << i), ns, seen, order) {
                     return true;
                 }
                 order.pop();
